@@ -68,6 +68,13 @@ def nat_orth(rng):
     Wbad = [np.stack([(u * np.array([1.0, 3e-3, 3e-6])) @ vh] * 2)] + [rnd(rng, 2, len(at.Gk2c[ik]), 3) for ik in range(1, at.kpts.Nk)]
     yb = orth(at, Wbad)[0][0]
     e = max(e, np.abs(yb.conj().T @ at.O(yb) - np.eye(3)).max() / 1e5)
+    # the orthonormalised orbitals do not depend on the overall scale of W (positive homogeneity of degree 0): sets of tiny and of large norm
+    for scale in (1e-3, 1e-6, 1e-9, 1e4):
+        Ys = orth(at, [scale * w for w in W])
+        for ik in range(at.kpts.Nk):
+            e = max(e, np.abs(np.asarray(Ys[ik]) - np.asarray(Y[ik])).max())
+            y = np.asarray(Ys[ik][0])
+            e = max(e, np.abs(y.conj().T @ at.O(y) - np.eye(3)).max())
     return e
 
 
@@ -117,6 +124,10 @@ def nat_orth_unocc(rng):
             d = D[ik][s]
             yo = Y[ik][s][:, at.occ.f[ik][s] > 0]
             e = max(e, np.abs(d.conj().T @ at.O(d) - np.eye(2)).max(), np.abs(d.conj().T @ at.O(yo)).max())
+    # trial sets of tiny norm give the same orthonormal unoccupied orbitals
+    Ds = orth_unocc(at, Y, [1e-6 * z for z in Z])
+    for ik in range(at.kpts.Nk):
+        e = max(e, np.abs(np.asarray(Ds[ik]) - np.asarray(D[ik])).max())
     # "all fillings": occupied states need not come first (the fillings array of a built object is set directly; the public
     # setter is subject to the known finding C19.Occupations.f)
     at = native_atoms(Nspin=2)
@@ -666,15 +677,38 @@ def sym_phi():
 
 
 def nat_phi(rng):
+    e = 0.0
+    # samplings with s0 > s2 and s0 < s2 (anisotropic, even and odd), at the Gamma point and at ONE shifted k-point (the Hartree field
+    # does not know about k-points)
+    for s_, shift in (((6, 5, 4), None), ((4, 5, 7), None), ((6, 8, 10), None), ((5, 4, 6), [0.1, 0.0, 0.2])):
+        e = max(e, _nat_phi_case(rng, s_, shift))
+    return e
+
+
+def _nat_phi_case(rng, s_, shift):
     from eminus.dft import get_phi
 
-    at = native_atoms(Nk=1)
+    at = native_atoms(Nk=1, s=s_)
+    if shift is not None:
+        at.kpts.kmesh = [1, 1, 1]
+        at.kpts.kshift = shift
+        at.build()
     n = rng.random(at.Ns)
     phi = get_phi(at, n)
-    nG = at.J(n)
-    nG0 = nG.copy()
+    # reciprocal-space density by an explicit sum (independent of the package's transforms): n_G = 1/Ns sum_r exp(-i G.r) n(r)
+    phase = np.exp(-1j * (np.asarray(at.G) @ np.asarray(at.r).T))
+    nG0 = phase @ n / at.Ns
     nG0[0] = 0
-    e = np.abs(at.L(phi[:, None])[:, 0] + 4 * np.pi * at.O(nG0)).max()  # L acts on matrices only (its docstring: options 3 and 5)
+    # |G|^2 phi_G = 4 pi n_G for every G != 0, with |G|^2 taken from the reciprocal vectors themselves (not from a table of the object)
+    G2 = np.sum(np.asarray(at.G) ** 2, axis=1)
+    ref = np.zeros_like(nG0)
+    ref[1:] = 4 * np.pi * nG0[1:] / G2[1:]
+    e = np.abs(phi - ref).max() / max(1.0, np.abs(ref).max())
+    # the single cosine: n = cos(G.r) gives phi_r = 4 pi / |G|^2 cos(G.r)
+    ig = 1 + int(np.argsort(G2[1:])[3])  # a short reciprocal vector (away from the Nyquist planes, where cos(G.r) and cos(-G.r) share one coefficient)
+    cosn = np.cos(np.asarray(at.r) @ np.asarray(at.G)[ig])
+    phir = np.real(np.asarray(at.I(get_phi(at, cosn))))
+    e = max(e, float(np.abs(phir - 4 * np.pi / G2[ig] * cosn).max() / (4 * np.pi / G2[ig])))
     e = max(e, abs(phi[0]))
     m = rng.random(at.Ns)
     e = max(e, np.abs(get_phi(at, 2 * n + m) - 2 * phi - get_phi(at, m)).max())
@@ -1133,10 +1167,16 @@ def nat_epsilon_unocc(rng):
     exact eigenvalues of H in the full cut-off basis (the j-th unoccupied value >= the j-th exact eigenvalue)."""
     from eminus.dft import H as Hn, get_epsilon_unocc, orth, orth_unocc
 
-    scf, at = _native_scf(Nspin=2, xc="lda,pw", atom="Li")
+    # open-shell Li (different fillings per spin) on even seeds, closed-shell He treated unrestricted with DIFFERENT orbitals per spin channel
+    # (identical fillings, the channels still are separate eigenvalue problems) on odd ones
+    if int(rng.integers(2)) == 0:
+        scf, at = _native_scf(Nspin=2, xc="lda,pw", atom="Li")
+        W = scf.W
+    else:
+        scf, at = _native_scf(Nspin=2, xc="lda,pw", atom="He")
+        W = [rnd(rng, 2, len(at.Gk2c[ik]), at.occ.Nstate) for ik in range(at.kpts.Nk)]
     scf._precompute()
     pre = scf._precomputed
-    W = scf.W
     Z = [rnd(rng, 2, len(at.Gk2c[ik]), 3) for ik in range(at.kpts.Nk)]
     eps = np.asarray(get_epsilon_unocc(scf, W, Z, **pre))
     Zm = [z @ (np.eye(3) + 0.4 * rnd(rng, 3, 3)) for z in Z]
@@ -1159,9 +1199,49 @@ def nat_epsilon_unocc(rng):
 
 register(Obligation(name="C05.get_epsilon_unocc.ascending_subspace_eigenvalues", prop="C05", engine="B", bounded=True,
                     functions=["eminus.dft:get_epsilon_unocc", "eminus.dft:orth_unocc", "eminus.dft:H"],
-                    run=BoundedNative(nat_epsilon_unocc, 1, tol=1e-8, what="eigenvalues of the unoccupied subspace: ascending, those of D^H H D, unchanged by mixing Z, not below the exact ones (Li, unrestricted, 2 k-points)"),
+                    run=BoundedNative(nat_epsilon_unocc, 4, tol=1e-8, what="eigenvalues of the unoccupied subspace: ascending, those of D^H H D, unchanged by mixing Z, not below the exact ones (Li, unrestricted, 2 k-points)"),
                     budget={"quick": 200, "thorough": 600},
                     doc="BOUNDED: get_epsilon_unocc returns the ascending eigenvalues of the subspace Hamiltonian of the orthonormalised unoccupied orbitals"))
+
+
+register(Obligation(name="C11.get_phi.native_grids_and_single_kpoint", prop="C11", engine="B", bounded=True, functions=["eminus.dft:get_phi", "eminus.operators:J", "eminus.operators:Linv", "eminus.atoms:Atoms._sample_unit_cell"],
+                    run=BoundedNative(nat_phi, 1, tol=1e-10, what="|G|^2 phi_G = 4 pi n_G against an explicit Fourier sum, single cosine, zero mean, linearity: samplings (6,5,4), (4,5,7), (6,8,10) and one shifted k-point"),
+                    doc="BOUNDED: the Poisson identity evaluated natively on anisotropic even / odd samplings and for a single shifted k-point (the symbolic proof takes |G|^2 and the transforms by contract)"))
+
+
+def nat_H_hermitian_ionic_only(rng):
+    """Kinetic + local ionic + non-local part of H alone (Hartree field and xc potential set to zero) on a COARSE EVEN sampling of a triclinic cell with
+    atoms away from grid points: Hermitian to round-off, for every built-in external potential (the local potential handed to H is real)."""
+    import eminus
+    from eminus import SCF, Atoms
+    from eminus.dft import H as Hn
+
+    eminus.config.backend = "numpy"
+    eminus.config.verbose = "critical"
+    e = 0.0
+    for pot in ("gth", "coulomb", "lr", "harmonic", "ge"):
+        at = Atoms(["Li", "H"], [[0.31, 0.17, 0.23], [0.45, 1.1, 2.9]], ecut=4, a=[[6.0, 0.3, 0.1], [0.2, 6.5, 0.4], [0.5, 0.1, 7.0]], unrestricted=True)
+        at.s = [6, 6, 8]
+        at.kpts.kmesh = [2, 1, 1]
+        scf = SCF(at, pot=pot, verbose="critical")
+        at = scf.atoms
+        e = max(e, float(np.abs(np.imag(np.asarray(scf.Vloc))).max()))
+        zero_phi = np.zeros(at.Ns, dtype=complex)
+        zero_v = np.zeros((2, at.Ns))
+        for ik in range(at.kpts.Nk):
+            A_ = [rnd(rng, 2, len(at.Gk2c[k]), 2) for k in range(at.kpts.Nk)]
+            B_ = [rnd(rng, 2, len(at.Gk2c[k]), 2) for k in range(at.kpts.Nk)]
+            for sp in range(2):
+                l = A_[ik][sp].conj().T @ np.asarray(Hn(scf, ik, sp, B_, dn_spin=None, phi=zero_phi, vxc=zero_v, vsigma=None, vtau=None))
+                r = np.asarray(Hn(scf, ik, sp, A_, dn_spin=None, phi=zero_phi, vxc=zero_v, vsigma=None, vtau=None)).conj().T @ B_[ik][sp]
+                e = max(e, float(np.abs(l - r).max() / max(1.0, np.abs(l).max())))
+    return e
+
+
+register(Obligation(name="C05.H.hermitian_native.ionic_part_coarse_even_grid", prop="C05", engine="B", bounded=True,
+                    functions=["eminus.dft:H", "eminus.gth:init_gth_loc", "eminus.potentials:coulomb", "eminus.potentials:coulomb_lr", "eminus.potentials:harmonic", "eminus.gth:calc_Vnonloc"],
+                    run=BoundedNative(nat_H_hermitian_ionic_only, 1, tol=1e-10, what="Hermiticity of kinetic + local ionic + non-local terms (phi = vxc = 0) and Im Vloc = 0, five external potentials, coarse even sampling"),
+                    doc="BOUNDED: the ionic part of H is Hermitian on a coarse even sampling (the open finding on such samplings concerns the Hartree / xc part only); Vloc is real"))
 
 
 def nat_hermitian_even_grid_gga(rng):
